@@ -133,6 +133,18 @@ type Inputs struct {
 	Balances Sheet
 	Meta     map[string]map[string]string
 	Flags    map[string]bool
+	// Steer, when set, holds for every statement the postings the real execution emitted for
+	// it: after the reference execution of a send statement (whose result is recorded as
+	// usual) the visible balances continue from the balances before that statement plus these
+	// postings, not from the reference's own draws and credits. A statement is then judged
+	// on the state the real execution was actually in, so that a divergence in one statement
+	// is attributed to that statement only.
+	Steer [][]Posting
+}
+
+type Posting struct {
+	Src, Dst, Asset string
+	Amt             *big.Int
 }
 
 type Result struct {
@@ -883,6 +895,10 @@ func Run(s *gen.Script, in Inputs) Result {
 			res.Stmts = append(res.Stmts, StmtResult{Kind: gen.StCall})
 			continue
 		}
+		var before Sheet
+		if in.Steer != nil && s.Kind == gen.StSend && i < len(in.Steer) {
+			before = st.vis.Clone()
+		}
 		r, err := st.runStmt(s)
 		if err != nil {
 			err.Stmt = i
@@ -891,6 +907,13 @@ func Run(s *gen.Script, in Inputs) Result {
 			return res
 		}
 		res.Stmts = append(res.Stmts, r)
+		if before != nil {
+			for _, p := range in.Steer[i] {
+				before.Add(p.Src, p.Asset, new(big.Int).Neg(p.Amt))
+				before.Add(p.Dst, p.Asset, p.Amt)
+			}
+			st.vis = before
+		}
 	}
 	res.Vis = st.vis
 	return res
